@@ -23,7 +23,7 @@ def content_for(entry):
 def file_name(entry):
     k = entry["kind"]
     n = entry["name"]
-    return {"note": n + ".md", "mdmd": n + ".md.md", "txt": n + ".txt", "noext": n, "link": n + ".md"}[k]
+    return {"note": n + ".md", "mdmd": n + ".md.md", "txt": n + ".txt", "noext": n, "link": n + ".md", "upper": n + ".MD"}[k]
 
 
 def rel_path(entry):
@@ -226,7 +226,12 @@ def run_case(iwe, vh, case_id, case, work):
         cmd = [iwe, "normalize"]
         lim = fault["ord"]
 
+        ignore = fault.get("kind") == "EFBIG"
+
         def pre():
+            if ignore:
+                import signal
+                signal.signal(signal.SIGXFSZ, signal.SIG_IGN)       # inherited across exec: writes past the limit return EFBIG
             resource.setrlimit(resource.RLIMIT_FSIZE, (lim, lim))
             resource.setrlimit(resource.RLIMIT_CORE, (0, 0))
     else:
